@@ -342,6 +342,12 @@ def _entrypoints(case, ctx):
     _twice(ctx, "model.pdf(list)", lambda: model.pdf(X[:3].tolist()))
     _twice(ctx, "model.pdf(row)", lambda: model.pdf(X[0]))
     _twice(ctx, "model.draw_sample(seed)", lambda: model.draw_sample(50, random_state=5))
+    _twice(ctx, "model.draw_sample(seed=0)", lambda: model.draw_sample(50, random_state=0))
+    _twice(ctx, "model.draw_sample(seed=np.int64(0))", lambda: model.draw_sample(50, random_state=np.int64(0)))
+    for _k in range(3):  # the third call, with unseeded draws in between
+        model.draw_sample(3)
+    third = model.draw_sample(50, random_state=0)
+    ctx.check("c19.repeatable", _equal(third, model.draw_sample(50, random_state=0)), "model.draw_sample(seed=0): not repeatable after unseeded draws in between", entry="draw_sample")
     p = np.array([0.1, 0.5, 0.9])
     for i, dist in enumerate(model.distributions):
         c_ = model.conditional_on[i]
